@@ -218,6 +218,27 @@ impl<'a, T: Queryable> Pointer<'a, T> {
 
         Pointer { inner, path }
     }
+    /// A step to the member of an object with the given (real) name,
+    /// spelled as the normalized path of RFC 9535 2.7 requires
+    pub fn member(inner: &'a T, path: QueryPath, name: &str) -> Self {
+        let mut path = path;
+        path.push_str("['");
+        for c in name.chars() {
+            match c {
+                '\'' => path.push_str("\\'"),
+                '\\' => path.push_str("\\\\"),
+                '\u{8}' => path.push_str("\\b"),
+                '\u{c}' => path.push_str("\\f"),
+                '\n' => path.push_str("\\n"),
+                '\r' => path.push_str("\\r"),
+                '\t' => path.push_str("\\t"),
+                c if c < ' ' => path.push_str(&format!("\\u{:04x}", c as u32)),
+                c => path.push(c),
+            }
+        }
+        path.push_str("']");
+        Pointer { inner, path }
+    }
     pub fn idx(inner: &'a T, path: QueryPath, index: usize) -> Self {
         Pointer {
             inner,
